@@ -322,7 +322,7 @@ def section_herm():
             pb = Problem(E, sub, seed=91, fmt=fmt)
             kw = {"fully_diagonalize": tuple(fully)} if fully else {}
             ref = block_diagonalize(pb.hamiltonian(), subspace_indices=pb.sub, **kw)
-            for k in (13, 20):
+            for k in (13, 20, 30, 36):        # 2^-30, 2^-36: every entry of the perturbation lies between atol = 1e-12 and numpy's default tolerance 1e-8
                 cases += 1
                 eps = 2.0 ** -k
                 pbw = Problem(E, sub, seed=91, fmt=fmt)
